@@ -48,7 +48,8 @@ func RemoveValue(_ context.Context, args ...core.Value) (core.Value, error) {
 		remove := item.Compare(value) == 0
 
 		if remove {
-			if counter == limit {
+			// the first "limit" occurrences are removed, later ones are kept
+			if limit > -1 && counter >= limit {
 				result.Push(item)
 			}
 
